@@ -14,7 +14,8 @@ Two spellings of one thing are recognised and reduced to the try statement they 
             finally:                                    finally:
                 F                                           F
 
-    provided the function has exactly one `yield`, in statement position, and nothing can run after the `yield` on
+    provided every path through the function reaches exactly one `yield` (in statement position; two at most, in the
+    exclusive arms of an `if`), and nothing can run after the `yield` on
     the normal path except `finally` blocks (so that a `return` inside BODY skips nothing);
 
   * a class with only `__init__`, `__enter__` and `__exit__` whose `__init__` stores its parameters (or constants)
@@ -45,36 +46,53 @@ def _own_stmts(stmts):
                 yield n
 
 
-def _yield_site(body):
-    """(block list, index) of the single statement-position `yield` when nothing but `finally` follows it on the
-    normal path; None otherwise"""
+def _yield_sites(body):
+    """[(block list, index)] of the statement-position `yield`s: exactly one on every path (several only in the
+    exclusive arms of `if` statements), nothing but `finally` after it on the normal path; None otherwise"""
     ys = [n for s in body for n in ([s] + list(_walk_own_stmt(s))) if isinstance(n, (ast.Yield, ast.YieldFrom))]
-    if len(ys) != 1 or not isinstance(ys[0], ast.Yield):
+    if not ys or any(not isinstance(y, ast.Yield) for y in ys):
         return None
-    y = ys[0]
+    yid = {id(y) for y in ys}
+
+    def has(stmts):
+        return any(id(x) in yid for s in stmts for x in ast.walk(s))
 
     def find(lst, tail_ok):
+        """sites in this block; False = a yield in an unsupported position"""
+        out = []
         for i, s in enumerate(lst):
             last = i == len(lst) - 1
-            if isinstance(s, ast.Expr) and s.value is y:
-                return (lst, i) if (tail_ok and last) else False
-            if isinstance(s, ast.Try):
+            if isinstance(s, ast.Expr) and id(s.value) in yid:
+                if not (tail_ok and last):
+                    return False
+                out.append((lst, i))
+            elif isinstance(s, ast.Try):
                 r = find(s.body, tail_ok and last and not s.orelse)
-                if r is not None:
-                    return r
+                if r is False:
+                    return False
+                out.extend(r)
                 for blk in [s.orelse, s.finalbody] + [h.body for h in s.handlers]:
-                    if any(x is y for b in blk for x in ast.walk(b)):
+                    if has(blk):
                         return False
             elif isinstance(s, (ast.With, ast.AsyncWith)):
                 r = find(s.body, tail_ok and last)
-                if r is not None:
-                    return r
-            elif any(x is y for x in ast.walk(s)):
+                if r is False:
+                    return False
+                out.extend(r)
+            elif isinstance(s, ast.If):
+                if has([s]):
+                    a, b = find(s.body, tail_ok and last), find(s.orelse, tail_ok and last)
+                    if a is False or b is False or not a or not b:
+                        return False  # every path must reach exactly one yield
+                    out.extend(a + b)
+            elif has([s]):
                 return False
-        return None
+        return out
 
     r = find(body, True)
-    return r or None
+    if not r or len(r) != len(ys):
+        return None
+    return r
 
 
 class _FieldsToLocals(ast.NodeTransformer):
@@ -317,8 +335,8 @@ def inline_context_managers(trees, unknown, report):
                 name = c.func.id
                 _, gen, _ = cms[name]
                 h = Helper(rel, name, gen, None)
-                site = _yield_site(h.body)
-                if not h.ok or h.has_nested or site is None:
+                site = _yield_sites(h.body)
+                if not h.ok or h.has_nested or site is None or len(site) > 2:
                     failed.add(name)
                     return [s]
                 if it.optional_vars is not None and (gen._yields_self or not isinstance(it.optional_vars, ast.Name)):
@@ -329,13 +347,13 @@ def inline_context_managers(trees, unknown, report):
                     failed.add(name)
                     return [s]
                 prologue, body = inst
-                lst, i = _yield_site(body)
-                y = lst[i].value
-                repl = []
-                if it.optional_vars is not None:
-                    repl.append(ast.copy_location(ast.Assign(targets=[it.optional_vars], value=y.value if y.value is not None else ast.Constant(value=None)), s))
-                repl.extend(s.body)
-                lst[i:i + 1] = repl
+                for k, (lst, i) in enumerate(_yield_sites(body)):
+                    y = lst[i].value
+                    repl = []
+                    if it.optional_vars is not None:
+                        repl.append(ast.copy_location(ast.Assign(targets=[copy.deepcopy(it.optional_vars)], value=y.value if y.value is not None else ast.Constant(value=None)), s))
+                    repl.extend(copy.deepcopy(s.body) if k else s.body)
+                    lst[i:i + 1] = repl
                 new = prologue + body
                 for n in new:
                     ast.fix_missing_locations(ast.copy_location(n, s) if not hasattr(n, "lineno") else n)
